@@ -216,6 +216,23 @@ let class_of_kind k =
 
 let kind_of_text t = match split t with k :: _ -> k | [] -> ""
 
+(* property an injected event belongs to: a panic or a wrongly closed connection while handling
+   it is attributed to that property as well as to C11 *)
+let class_of_event (ev : string) : string =
+  match split ev with
+  | "MSG" :: _ :: _ :: _ :: k :: _ ->
+      (match k with
+       | "CallFunction" | "CallFunction2" | "CallFunctionReply" | "AbortFunctionCall" -> "C02"
+       | "CreateObject" | "DestroyObject" | "CreateService" | "CreateService2" | "DestroyService"
+       | "QueryServiceVersion" | "QueryServiceInfo" | "SubscribeService" | "UnsubscribeService" -> "C03"
+       | "SubscribeEvent" | "UnsubscribeEvent" | "EmitEvent" | "SubscribeAllEvents" | "UnsubscribeAllEvents" -> "C04"
+       | "CreateChannel" | "CloseChannelEnd" | "ClaimChannelEnd" | "AddChannelCapacity" | "SendItem" -> "C05"
+       | "CreateBusListener" | "DestroyBusListener" | "AddBusListenerFilter" | "RemoveBusListenerFilter"
+       | "ClearBusListenerFilters" | "StartBusListener" | "StopBusListener" -> "C10"
+       | _ -> "C11")
+  | ("NEW" | "SHUT" | "SHUTC" | "DROP" | "SHUTB" | "SHUTI") :: _ -> "C09"
+  | _ -> "C11"
+
 (* which connections are version-gated away from a kind: used for the C12 classification *)
 let gated_kinds = ["CallFunction2"; "AbortFunctionCall"; "QueryIntrospectionReply"; "QueryServiceInfoReply";
                    "SubscribeServiceReply"; "SubscribeAllEvents"; "SubscribeAllEventsReply";
@@ -251,7 +268,7 @@ let () =
           let before = List.map int_of_n (conn_ids !state) in
           (match step !state p.ev p.fresh p.bserial with
            | Panic site ->
-               report (Printf.sprintf "C11:model-panic-site-%d(the-implementation-reached-a-state-the-model-calls-inconsistent)" (int_of_n site))
+               report (Printf.sprintf "C11+%s:model-panic-site-%d(the-implementation-reached-a-state-the-model-calls-inconsistent)" (class_of_event line) (int_of_n site))
                  line (String.concat "; " (List.map (fun (c, t) -> Printf.sprintf "%d:%s" c t) !obs_outs)) "-"
            | Fail _ -> report "C11:model-fail" line "-" "-"
            | Done (st', outs) ->
@@ -298,7 +315,7 @@ let () =
                  let ca = (match p.ev with ShutdownBroker -> [] | _ -> List.sort compare !obs_closed)
                  and cb = List.sort compare removed in
                  if ca <> cb then
-                   report "C09+C11+C12:closed-connections-differ" line
+                   report (Printf.sprintf "C09+C11+C12+%s:closed-connections-differ" (class_of_event line)) line
                      (String.concat "," (List.map string_of_int ca)) (String.concat "," (List.map string_of_int cb))
                  else begin
                    let g = st st' in
@@ -342,8 +359,16 @@ let () =
       else if len >= 6 && String.sub line 0 6 = "STATS " then obs_stats := String.sub line 6 (len - 6)
       else if len >= 5 && String.sub line 0 5 = "EXIT " then obs_exit := String.sub line 5 (len - 5)
       else if line = "END" then (finish_step (); cur_ev := None)
-      else if len >= 6 && String.sub line 0 6 = "PANIC " then begin
-        if not !dead then report "C11:implementation-panic" (match !cur_ev with Some e -> e | None -> "-") line "-"
+      else if len >= 4 && String.sub line 0 4 = "EVP " then begin
+        (* the operation during which the implementation panicked *)
+        cur_ev := Some (String.sub line 4 (len - 4));
+        if not !dead then evlog := String.sub line 4 (len - 4) :: !evlog
+      end else if len >= 6 && String.sub line 0 6 = "PANIC " then begin
+        if not !dead then begin
+          let e = (match !cur_ev with Some e -> e | None -> (match !evlog with e :: _ -> e | [] -> "-")) in
+          report (Printf.sprintf "C11+%s:implementation-panic" (class_of_event e)) e line "-";
+          cur_ev := None
+        end
       end else if len >= 13 && String.sub line 0 13 = "HARNESS-ERROR" then begin
         if not !dead then report "HARNESS" "-" line "-"
       end else if line = "HISTEND" then begin
